@@ -586,7 +586,7 @@ class Model:
 
         # Get mapped values; checks are carried out on conductivities.
         if 'property_' in name:
-            mapped = self.map.backward(np.asarray(values))
+            mapped = self.map.backward(np.asarray(values, dtype=np.float64))
         else:
             mapped = values
 
